@@ -18,7 +18,10 @@ def one(d):
             return name, {"_skipped": why}
         env = dict(os.environ, VERIF_REPO=scratch)
         res = {}
+        ea = json.load(open(os.path.join(d, "meta.json"))).get("expected_alarm")
         for p in PROPS:
+            if isinstance(ea, dict) and p in ea:
+                continue    # documented limitation of that check
             r = subprocess.run([sys.executable, "-m", "rules.main", p], cwd=VERIF, env=env, stdout=subprocess.PIPE, stderr=subprocess.STDOUT, text=True)
             if r.returncode != 0:
                 res[p] = [l.strip()[9:150] for l in r.stdout.splitlines() if l.strip().startswith("instance ")][:6] or [r.stdout[-200:]]
@@ -32,7 +35,7 @@ def main():
     dirs = sorted(glob.glob(os.path.join(VERIF, "benign", "*")))
     if flt:
         dirs = [d for d in dirs if any(f in os.path.basename(d) for f in flt)]
-    dirs = [d for d in dirs if not json.load(open(os.path.join(d, "meta.json"))).get("expected_alarm")]
+    dirs = [d for d in dirs if not isinstance(json.load(open(os.path.join(d, "meta.json"))).get("expected_alarm"), str)]
     bad = 0
     with ThreadPoolExecutor(max_workers=4) as ex:
         for name, res in ex.map(one, dirs):
